@@ -448,6 +448,21 @@ func recursionC19(c *Ctx) {
 					}
 				}
 			}
+			if !(hasCall && hasErr && hasAppend) {
+				// the call may sit in an if-initialiser, the error may be carried in a variable to one exit
+				nested := false
+				ast.Inspect(cc, func(m ast.Node) bool {
+					if sel, ok := m.(*ast.SelectorExpr); ok && sel.Sel.Name == "RequiredPrivileges" {
+						nested = true
+					}
+					return true
+				})
+				if nested {
+					c.Unk("C19.recursion", "Sources.RequiredPrivileges: subquery contributes its statement's privileges", cc.Pos(),
+						fmt.Sprintf("the statement's privileges are asked for, but not in the recognised call / error return / append sequence (nested call=%v error propagated=%v appended=%v)", hasCall, hasErr, hasAppend))
+					continue
+				}
+			}
 			c.Check(hasCall && hasErr && hasAppend, "C19.recursion", "Sources.RequiredPrivileges: subquery contributes its statement's privileges", cc.Pos(),
 				fmt.Sprintf("nested call=%v error propagated=%v appended=%v", hasCall, hasErr, hasAppend))
 		}
@@ -504,6 +519,7 @@ func recursionC19(c *Ctx) {
 	if ps := p.Method("Parser", "parseSelectStatement"); ps != nil {
 		pd := p.FuncDecls[ps]
 		okSrc := false
+		foundSrc := false
 		for _, s := range pd.Body.List {
 			ast.Inspect(s, func(n ast.Node) bool {
 				as, ok := n.(*ast.AssignStmt)
@@ -515,6 +531,7 @@ func recursionC19(c *Ctx) {
 					return true
 				}
 				if sel, ok := call.Fun.(*ast.SelectorExpr); ok && sel.Sel.Name == "parseSources" && len(as.Lhs) >= 1 && strings.HasSuffix(types.ExprString(as.Lhs[0]), ".Sources") {
+					foundSrc = true
 					// unconditional: the enclosing top-level statement is an if with this as Init, not nested in another condition
 					if is, ok := s.(*ast.IfStmt); ok && is.Init == n {
 						okSrc = true
@@ -525,7 +542,11 @@ func recursionC19(c *Ctx) {
 				return true
 			})
 		}
-		c.Check(okSrc, "C19.recursion", "(*Parser).parseSelectStatement: FROM is mandatory", pd.Pos(), "stmt.Sources must be stored from parseSources unconditionally (SELECT's privilege list starts from the sources)")
+		if foundSrc && !okSrc {
+			c.Unk("C19.recursion", "(*Parser).parseSelectStatement: FROM is mandatory", pd.Pos(), "stmt.Sources is stored from parseSources under a condition; whether the other branch ends in an error is not followed")
+		} else {
+			c.Check(okSrc, "C19.recursion", "(*Parser).parseSelectStatement: FROM is mandatory", pd.Pos(), "stmt.Sources must be stored from parseSources unconditionally (SELECT's privilege list starts from the sources)")
+		}
 	}
 	// (3) Explain: every return delegates
 	if ef := p.SSAFunc(p.Method("ExplainStatement", "RequiredPrivileges")); ef != nil {
@@ -798,7 +819,7 @@ func freshListC19(c *Ctx) {
 				header = x
 			}
 		}
-		inLoop := false
+		inLoop, errExit := false, false
 		seen := map[*ssa.BasicBlock]bool{}
 		var back func(x *ssa.BasicBlock)
 		back = func(x *ssa.BasicBlock) {
@@ -809,7 +830,19 @@ func freshListC19(c *Ctx) {
 			for _, pr := range x.Preds {
 				if onCycle(pr) {
 					if pr != header {
-						inLoop = true
+						// a loop left where an error value was just tested is the error exit;
+						// whether a successful return can follow it is not decided here
+						errTest := false
+						if ifi, ok := pr.Instrs[len(pr.Instrs)-1].(*ssa.If); ok {
+							if bo, ok := ifi.Cond.(*ssa.BinOp); ok && (p.TypeStr(bo.X.Type()) == "error" || p.TypeStr(bo.Y.Type()) == "error") {
+								errTest = true
+							}
+						}
+						if errTest {
+							errExit = true
+						} else {
+							inLoop = true
+						}
 					}
 					continue
 				}
@@ -819,6 +852,8 @@ func freshListC19(c *Ctx) {
 		back(b)
 		if inLoop {
 			c.Bad("C19.allsources", key, ret.Pos(), "a successful return is taken from inside the loop over the sources")
+		} else if errExit {
+			c.Unk("C19.allsources", key, ret.Pos(), "the loop is also left where an error was just tested; that this exit ends in the error return is not followed")
 		} else {
 			c.OK("C19.allsources", key, ret.Pos(), "after the loop")
 		}
